@@ -437,6 +437,10 @@ Definition d28_entry (_ v : yaml) : bool :=
   | _ => false
   end.
 
+(* ... and the same block as a MEMBER of a list: `f: [{all(k): [..]}, ..]` *)
+Definition d28_member_entry (k v : yaml) : bool :=
+  match v with YSeq vs => existsb (d28_entry k) vs | _ => false end.
+
 (* D26: all(k) / of(k, n) over a list with two or more string members on an ARRAY field: the
    batched form asks one element to satisfy all / n members *)
 Definition d26_entry (k v : yaml) : bool :=
@@ -455,7 +459,7 @@ Definition spec_known (y : yaml) : list N :=
              end in
   let any p := existsb (fun v => entry_exists (S (yaml_depth v)) p v) ids in
   (if any d26_entry then [26%N] else []) ++ (if any d27_entry then [27%N] else []) ++
-  (if any d28_entry then [28%N] else []).
+  (if any d28_entry || any d28_member_entry then [28%N] else []).
 
 End SpecKnown.
 
